@@ -172,6 +172,12 @@ PROPS = {
     'C13': {'obligations': c13, 'bounds': 'read side only: all strings of each listed byte length (<= 45) over ASCII and two-byte UTF-8 sequences; reference reader loop unwound 30', 'outside': 'format_rfc3339 (String building); strings with 3/4-byte characters; lengths above 45'},
     'C14': {'obligations': c14, 'bounds': 'DateTime::parse_rfc3339 and DateTime::from_str only: all strings of each listed byte length (<= 45) over ASCII and two-byte UTF-8', 'outside': 'parse()/format() with pattern strings, Date/Time::from_str, CronSchedule::parse (String/Vec<String> code out of reach)'},
     'C17': {'obligations': c17, 'cfg_test': True, 'bounds': 'all schedules (any non-empty subsets of the five field ranges), clock and loop state in the stated day window (quick: 2022-2025, thorough: 1970-9999), offset 0; any number of carry steps by induction over loop iterations (meta-step)', 'outside': 'termination for unsatisfiable schedules; schedules whose pinned clock carries a non-zero offset; expression parsing (C16)'},
+    'C18': {'engine': 'kani', 'kani_prefixes': ['c18_'], 'scratch_props': ['append_local-timezone__verif_tz.rs', 'append_local-timezone__verif_tz_replay.rs'],
+            'bounds': 'version-1 files with (transitions, types) in {(0,1),(1,2),(2,2),(3,2)}: all transition times, type indices (valid) and offsets symbolic, all i64 timestamps; plus a directly built state with two transitions and a fixed-offset footer rule',
+            'outside': 'the footer text (POSIX TZ string) and rule-based lookups (Jn / n / Mm.w.d): std string code out of reach of CBMC here, and not ported to the MIR engine in this revision; version 2/3 framing; more than 3 transitions'},
+    'C19': {'engine': 'kani', 'kani_prefixes': ['c19_'], 'scratch_props': ['append_local-timezone__verif_tz.rs', 'append_local-timezone__verif_tz_replay.rs'],
+            'bounds': 'version-1 files with (transitions, types) in {(0,0),(0,1),(1,1),(2,1),(2,2)} and selected truncations: every content byte (incl. type indices) and the timestamp symbolic; any 44-byte header with a non-zero count',
+            'outside': 'footer text and rule fields (M13.1.0, J0, ...): not decided; version 2/3 framing; other shapes and truncation points'},
     'C15': {'obligations': c15, 'bounds': 'full i32/u32/u64 domain of every parameter', 'outside': 'the rendered message text (std formatting of the tracked min/max/value fields)'},
     'C04': {'obligations': c04, 'bounds': 'all instants x all u32 counts; all Durations (u64 secs, u32 nanos < 10^9)', 'outside': ''},
 }
